@@ -178,6 +178,7 @@ type interpreter struct {
 	wgs      map[*value]*wgState
 	natives  map[*value]interface{}
 	blobs    []value
+	panicSite string
 }
 
 func (i *interpreter) interpretable(fn *ssa.Function) bool {
@@ -667,8 +668,8 @@ func (r *Run) runPath(s *Solver, pkg *ssa.Package, fn *ssa.Function, item workIt
 	}
 	if out == Inconclusive || out == EngineError || (out == BoundExceeded && !r.cfg.Opts.BoundIsViolation) {
 		k := out.String() + ": " + msg
-		if len(k) > 300 {
-			k = k[:300]
+		if len(k) > 6000 {
+			k = k[:6000]
 		}
 		res.InconclusiveMsgs[k]++
 	}
@@ -733,8 +734,8 @@ func (i *interpreter) runMain(pkg *ssa.Package, fn *ssa.Function) (out Outcome, 
 		return EngineError, string(f)
 	default:
 		stk := i.fatalStk
-		if len(stk) > 1500 {
-			stk = stk[:1500]
+		if len(stk) > 6000 {
+			stk = stk[:6000]
 		}
 		return EngineError, fmt.Sprintf("host panic: %v\n%s", f, stk)
 	}
